@@ -107,13 +107,13 @@ theorem dbAt_zero (cfg : Cfg) (db0 : Db) (lin : List LinOp) : dbAt cfg db0 lin 0
 theorem dbAt_succ {cfg : Cfg} {db0 : Db} {lin : List LinOp} {k : Nat} {e : LinOp} (h : lin[k]? = some e) :
     dbAt cfg db0 lin (k + 1) = applyOp cfg (dbAt cfg db0 lin k) e.op := by
   unfold dbAt
-  rw [List.take_succ, h, List.map_append, run_append]
+  rw [List.take_add_one, h, List.map_append, run_append]
   rfl
 
 theorem dbAt_succ_none {cfg : Cfg} {db0 : Db} {lin : List LinOp} {k : Nat} (h : lin[k]? = none) :
     dbAt cfg db0 lin (k + 1) = dbAt cfg db0 lin k := by
   unfold dbAt
-  rw [List.take_succ, h]; simp
+  rw [List.take_add_one, h]; simp
 
 theorem dbAt_length (cfg : Cfg) (db0 : Db) (lin : List LinOp) :
     dbAt cfg db0 lin lin.length = run cfg (lin.map (·.op)) db0 := by
